@@ -59,23 +59,23 @@ Proof.
   - (* PDone *) unfold PInv. rewrite Epc. exact H.
 Qed.
 
-Lemma PInv_init stop0 limit0 counter0 behs : PInv (pinit stop0 limit0 counter0 behs).
-Proof. unfold PInv, pinit, pscript. cbn. auto. Qed.
+Lemma PInv_init faults stop0 limit0 counter0 behs : PInv (pinit_f faults stop0 limit0 counter0 behs).
+Proof. unfold PInv, pinit_f, pscript. cbn. auto. Qed.
 
 Lemma PInv_run c ls s : PInv s -> PInv (prun c ls s).
 Proof. unfold prun. revert s. induction ls as [|l ls IH]; intros s H; cbn [fold_left]; auto. apply IH, PInv_step, H. Qed.
 
 (* Every prefix of what the state-machine thread puts is properly nested, whatever Hypothesis does, wherever the stop arrives. *)
-Lemma producer_nested c stop0 limit0 counter0 behs ls :
-  nested (pscript (prun c ls (pinit stop0 limit0 counter0 behs))) = true.
-Proof. destruct (PInv_run c ls _ (PInv_init stop0 limit0 counter0 behs)) as (H & _). exact H. Qed.
+Lemma producer_nested c faults stop0 limit0 counter0 behs ls :
+  nested (pscript (prun c ls (pinit_f faults stop0 limit0 counter0 behs))) = true.
+Proof. destruct (PInv_run c ls _ (PInv_init faults stop0 limit0 counter0 behs)) as (H & _). exact H. Qed.
 
 (* When the thread has ended, every suite and every scenario it announced has been closed - interrupted or not. *)
-Lemma producer_closed c stop0 limit0 counter0 behs ls :
-  let s := prun c ls (pinit stop0 limit0 counter0 behs) in
+Lemma producer_closed c faults stop0 limit0 counter0 behs ls :
+  let s := prun c ls (pinit_f faults stop0 limit0 counter0 behs) in
   p_pc s = PDone -> all_closed_p (pscript s) = true.
 Proof.
-  intros s Hd. destruct (PInv_run c ls _ (PInv_init stop0 limit0 counter0 behs)) as (_ & H2 & H3). fold s in H2, H3.
+  intros s Hd. destruct (PInv_run c ls _ (PInv_init faults stop0 limit0 counter0 behs)) as (_ & H2 & H3). fold s in H2, H3.
   rewrite Hd in H2, H3. cbn in H2, H3. unfold all_closed_p. rewrite H2, H3. reflexivity.
 Qed.
 
@@ -137,11 +137,11 @@ Proof.
   - destruct H as [H|(H1 & H2 & H3)]; [left; exact H|right]. repeat split; auto.
 Qed.
 
-Lemma producer_at_most_one_after_stop c stop0 limit0 counter0 behs ls :
-  count_true (p_bodies (prun c ls (pinit stop0 limit0 counter0 behs))) <= 1.
+Lemma producer_at_most_one_after_stop c faults stop0 limit0 counter0 behs ls :
+  count_true (p_bodies (prun c ls (pinit_f faults stop0 limit0 counter0 behs))) <= 1.
 Proof.
-  assert (H : SInv (prun c ls (pinit stop0 limit0 counter0 behs))).
-  { unfold prun. generalize (pinit stop0 limit0 counter0 behs) (or_introl eq_refl : SInv (pinit stop0 limit0 counter0 behs)).
+  assert (H : SInv (prun c ls (pinit_f faults stop0 limit0 counter0 behs))).
+  { unfold prun. generalize (pinit_f faults stop0 limit0 counter0 behs) (or_introl eq_refl : SInv (pinit_f faults stop0 limit0 counter0 behs)).
     induction ls as [|l ls IH]; intros s H; cbn [fold_left]; auto. apply IH, SInv_step, H. }
   destruct H as [H|(H & _)]; rewrite H; auto.
 Qed.
@@ -159,14 +159,14 @@ Proof.
     try rewrite H1; cbn [p_stop p_bodies p_pc early p_out scenario_statuses]; repeat split; auto. rewrite Epc. reflexivity.
 Qed.
 
-Lemma producer_stopped_before_start c limit0 counter0 behs ls :
-  let s := prun c ls (pinit true limit0 counter0 behs) in
+Lemma producer_stopped_before_start c faults limit0 counter0 behs ls :
+  let s := prun c ls (pinit_f faults true limit0 counter0 behs) in
   p_bodies s = [] /\ scenario_statuses (p_out s) = [].
 Proof.
-  assert (H : EInv (prun c ls (pinit true limit0 counter0 behs))).
+  assert (H : EInv (prun c ls (pinit_f faults true limit0 counter0 behs))).
   { unfold prun.
-    assert (H0 : EInv (pinit true limit0 counter0 behs)) by (repeat split; auto).
-    revert H0. generalize (pinit true limit0 counter0 behs) as s0.
+    assert (H0 : EInv (pinit_f faults true limit0 counter0 behs)) by (repeat split; auto).
+    revert H0. generalize (pinit_f faults true limit0 counter0 behs) as s0.
     induction ls as [|l ls IH]; intros s0 H0; cbn [fold_left]; auto. apply IH, EInv_step, H0. }
   destruct H as (_ & H2 & _ & H4). auto.
 Qed.
